@@ -129,7 +129,7 @@ var rules = map[string]string{
 	"C01": "mirror part: one evaluation = didOpen + one didChange notification (1 or 2 content changes) + comparison with the reference buffer; cases are distinct parameter vectors (document, ranges, texts); non-trivial = the change is not a plain in-range ASCII edit (non-ASCII/non-BMP line, clamped position, 0:0 corner, line break) . History part: one evaluation = one BFS transition replayed on a fresh server; non-trivial = follows a cache-populating request or is a ranged diff edit",
 	"C12": "each evaluation is one transition: a fresh workspace is initialised, the update history replayed with UpdateFile on the real Workspace (once reading the cached getters only at the end, once after every update) and the last update applied; non-trivial = the last update changes the file's include list; states = distinct (disk variants, index dump, graph dump) per shard",
 	"C10": "each case is one include graph (adjacency matrix, optional dangling edge / depth limit / oversized file / path form) materialised on disk and loaded once; distinct by construction (the enumeration never repeats a parameter vector); non-trivial = the graph has a cycle, a second acyclic path to a file, a dangling edge or a limit in force",
-	"C11": "each evaluation is one transition (history + one operation) executed by replay on a fresh real Loader (part A) or on a fresh server over two documents P and X (part B: open/close/re-analyse P, open/close/change/save X, then P analysed again and compared with a fresh server in the same final state); non-trivial = the last operation is a load that meets a non-empty cache; states are distinct (disk variants, cache contents, limits)",
+	"C11": "each evaluation is one transition (history + one operation) executed by replay on a fresh real Loader (part A) or on a fresh server over two documents P and X (part B: open/close/re-analyse P, open/close/change/save X, then P analysed again and compared with a fresh server in the same final state; part C: open with the saved or another text/change/save/close on M, X, Y, where membership of X and Y in the tree depends on the current texts, Q and M asked and compared with a fresh server and with a model of the tree); non-trivial = the last operation is a load that meets a non-empty cache; states are distinct (disk variants, cache contents, limits)",
 	"C14": "every schedule within the preemption bound is one race-detected execution of the real server; non-trivial = at least one preemption was taken; distinct = distinct choice sequences (the DFS never repeats one)",
 	"C13": "every schedule of the burst scenario within the preemption bound is one execution of the real server under the controlled scheduler; an execution is non-trivial when at least two PublishDiagnostics calls happened so that the schedule decided which one is last; distinct = distinct choice sequences (DFS never repeats one)",
 }
